@@ -24,7 +24,7 @@
 EXTENDS Naturals, Sequences, FiniteSets, TLC, Json
 
 CONSTANTS MaxEdits, Dev, RawMode   \* RawMode: the honest tokens carry b64=false (+crit) in their protected header
-DevNames == {"EmptyListVerifies", "B64FromUnprotected", "SigningInputRebuilt", "FalseNotRaised", "AnySigLength",
+DevNames == {"OobNotVerified", "EmptyListVerifies", "B64FromUnprotected", "SigningInputRebuilt", "FalseNotRaised", "AnySigLength",
              "UnprotectedAlgTrusted", "OnlyFirstSignatureChecked"}
 ASSUME Dev \subseteq DevNames
 
@@ -46,12 +46,13 @@ RawVal(t) == CASE t = "raw:P1" -> "P1" [] t = "raw:P2" -> "P2" [] t = "raw:PX" -
 Entry(h, s, u) == [h |-> h, s |-> s, u |-> u]
 Honest(ser, n) == [ser |-> ser, text |-> TextOf(1), es |-> [i \in 1..n |-> Entry("H1", "S1", "none")]]
 
-VARIABLES wire, edits, phase, ep, key, idx, failed, mode, verdict, returned
-vars == <<wire, edits, phase, ep, key, idx, failed, mode, verdict, returned>>
+\* oob: payload octets the caller supplies out of band (rfc7797.deserialize_compact(value, key, payload)), "none" when not given
+VARIABLES wire, edits, phase, ep, key, oob, idx, failed, mode, verdict, returned
+vars == <<wire, edits, phase, ep, key, oob, idx, failed, mode, verdict, returned>>
 
 Init ==
   /\ \E ser \in Sers, n \in 1..2 : (n = 2 => ser = "general") /\ wire = Honest(ser, n)
-  /\ edits = <<>> /\ phase = "attack" /\ ep = "none" /\ key = "none" /\ idx = 0 /\ failed = FALSE
+  /\ edits = <<>> /\ phase = "attack" /\ ep = "none" /\ key = "none" /\ oob = "none" /\ idx = 0 /\ failed = FALSE
   /\ mode = "none" /\ verdict = "none" /\ returned = "none"
 
 \* ------------------------------------------------------------------ attacker
@@ -59,7 +60,7 @@ NE == Len(wire.es)
 SetEntry(i, e) == [wire EXCEPT !.es[i] = e]
 Edit(name, w) == /\ phase = "attack" /\ Len(edits) < MaxEdits
                  /\ wire' = w /\ edits' = Append(edits, name)
-                 /\ UNCHANGED <<phase, ep, key, idx, failed, mode, verdict, returned>>
+                 /\ UNCHANGED <<phase, ep, key, oob, idx, failed, mode, verdict, returned>>
 
 EditHdr == \E i \in 1..NE : \E h \in Hdrs \ {wire.es[i].h} :
              Edit(<<"hdr", i, h>>, SetEntry(i, [wire.es[i] EXCEPT !.h = h]))
@@ -84,6 +85,8 @@ Present ==
        /\ (e = "jwt" => wire.ser = "compact")
        /\ (e = "7797" => wire.ser # "general")        \* rfc7797.deserialize_json is for flattened; general is delegated
        /\ ep' = e /\ key' = k
+       \* an out-of-band payload can be supplied to the RFC 7797 compact entry point; it is used for unencoded tokens
+       /\ \E o \in {"none", "P1", "P2"} : (o # "none" => e = "7797" /\ wire.ser = "compact" /\ RawMode) /\ oob' = o
   /\ phase' = "verify" /\ idx' = 1
   /\ UNCHANGED <<wire, edits, failed, mode, verdict, returned>>
 
@@ -102,12 +105,15 @@ HeaderOk(e) ==
   /\ (e.u = "b64" => ep = "7797")               \* b64 is registered on the RFC 7797 entry points only
   /\ (ProtRaw(e) => ep = "7797")
   /\ (e.u = "alg_other" => "UnprotectedAlgTrusted" \in Dev)   \* merged alg differs: not the allowed one / not the signed one
+\* the payload text the verifier signs over and returns: the supplied payload replaces the token's own segment (raw mode only)
+UsedText(e) == IF oob # "none" /\ ModeFor(e) = "raw" /\ "OobNotVerified" \notin Dev THEN (IF oob = "P1" THEN "raw:P1" ELSE "raw:P2") ELSE wire.text
+ReturnedText == IF oob # "none" /\ mode = "raw" THEN (IF oob = "P1" THEN "raw:P1" ELSE "raw:P2") ELSE wire.text
 \* the signature check proper: Si verifies only under K1 over <<Hi, text_i>> (received octets)
 SigOk(e) ==
   LET i == IF e.s = "S1" THEN 1 ELSE IF e.s = "S2" THEN 2 ELSE 0
       hmatch == \/ (i = 1 /\ e.h = "H1") \/ (i = 2 /\ e.h = "H2")
                 \/ (i = 1 /\ e.h = "R1" /\ "SigningInputRebuilt" \in Dev)
-  IN \/ (i # 0 /\ hmatch /\ wire.text = TextOf(i) /\ key = "K1")
+  IN \/ (i # 0 /\ hmatch /\ UsedText(e) = TextOf(i) /\ key = "K1")
      \/ ("AnySigLength" \in Dev /\ e.s \in {"trunc", "ext"} /\ e.h = "H1" /\ wire.text = TextOf(1) /\ key = "K1")
 
 VerifyEntry ==
@@ -117,29 +123,30 @@ VerifyEntry ==
      IN /\ failed' = (failed \/ ~HeaderOk(e) \/ ~SigOk(e))
         /\ mode' = IF idx = 1 THEN ModeFor(e) ELSE mode
   /\ idx' = idx + 1
-  /\ UNCHANGED <<wire, edits, phase, ep, key, verdict, returned>>
+  /\ UNCHANGED <<wire, edits, phase, ep, key, oob, verdict, returned>>
 SkipRest ==
   /\ phase = "verify" /\ idx <= NE /\ "OnlyFirstSignatureChecked" \in Dev /\ idx > 1
-  /\ idx' = NE + 1 /\ UNCHANGED <<wire, edits, phase, ep, key, failed, mode, verdict, returned>>
+  /\ idx' = NE + 1 /\ UNCHANGED <<wire, edits, phase, ep, key, oob, failed, mode, verdict, returned>>
 
 Conclude ==
   /\ phase = "verify" /\ idx > NE
   /\ LET none == NE = 0 /\ "EmptyListVerifies" \notin Dev
          m == IF NE = 0 THEN "enc" ELSE mode
-         pay == IF m = "raw" THEN RawVal(wire.text) ELSE Decode(wire.text)
+         pay == IF m = "raw" THEN RawVal(ReturnedText) ELSE Decode(wire.text)
          bad == failed \/ none \/ pay = "undecodable"
      IN /\ verdict' = IF bad /\ ~("FalseNotRaised" \in Dev /\ ~none /\ pay # "undecodable") THEN "reject" ELSE "ok"
         /\ returned' = IF verdict' = "ok" THEN pay ELSE "none"
   /\ phase' = "done"
-  /\ UNCHANGED <<wire, edits, ep, key, idx, failed, mode>>
+  /\ UNCHANGED <<wire, edits, ep, key, oob, idx, failed, mode>>
 
 Next == Attack \/ Present \/ VerifyEntry \/ SkipRest \/ Conclude
 Spec == Init /\ [][Next]_vars
 
 \* ------------------------------------------------------------------ layer D
 \* which honest token an entry authentically belongs to (0: none)
-AuthOf(e) == IF e.h = "H1" /\ e.s = "S1" /\ wire.text = TextOf(1) THEN 1
-             ELSE IF e.h = "H2" /\ e.s = "S2" /\ wire.text = TextOf(2) THEN 2 ELSE 0
+EffText == IF oob # "none" /\ mode = "raw" THEN (IF oob = "P1" THEN "raw:P1" ELSE "raw:P2") ELSE wire.text
+AuthOf(e) == IF e.h = "H1" /\ e.s = "S1" /\ EffText = TextOf(1) THEN 1
+             ELSE IF e.h = "H2" /\ e.s = "S2" /\ EffText = TextOf(2) THEN 2 ELSE 0
 SignedPayload(i) == IF i = 1 THEN "P1" ELSE "P2"
 AuthOnly ==
   phase = "done" /\ verdict = "ok" =>
@@ -151,9 +158,9 @@ AuthOnly ==
     /\ (mode = "raw" => ProtRaw(wire.es[1]))                      \* b64=false honoured only when integrity-protected
 \* C03 inside the model: with no attacker edit and the right key and entry point the honest token verifies
 RoundTrip ==
-  phase = "done" /\ edits = <<>> /\ key = "K1" /\ (RawMode => ep = "7797") => verdict = "ok" /\ returned = "P1"
+  phase = "done" /\ edits = <<>> /\ key = "K1" /\ oob \in {"none", "P1"} /\ (RawMode => ep = "7797") => verdict = "ok" /\ returned = "P1"
 
 Export == phase = "done" =>
-            PrintT("CASE " \o ToJson([ser |-> wire.ser, text |-> wire.text, es |-> wire.es, edits |-> edits, ep |-> ep, key |-> key,
+            PrintT("CASE " \o ToJson([ser |-> wire.ser, text |-> wire.text, es |-> wire.es, edits |-> edits, ep |-> ep, key |-> key, oob |-> oob,
                                       raw |-> RawMode, verdict |-> verdict, returned |-> returned]))
 =============================================================================
